@@ -36,7 +36,7 @@ def run_selftest():
     # panic obligations
     for name, bad in [("bad_fixed_read", True), ("good_fixed_read", False), ("bad_off_by_one", True), ("good_get", False),
                       ("bad_unsigned_sub", True), ("good_unsigned_sub", False), ("bad_unwrap", True), ("good_lossy", False),
-                      ("bad_alloc", True), ("good_alloc", False)]:
+                      ("bad_alloc", True), ("bad_alloc_u16", True), ("good_alloc", False)]:
         b = body("fx_rules::" + name)
         if b is None:
             continue
